@@ -163,7 +163,7 @@ def correspondence(res):
         except export.ExportError:
             continue
         trees = []
-        for k in range(4):
+        for k in range(8):
             rec = Recorder()
             random.seed(rng.randrange(1 << 30))
             budget = rng.choice([1, 5, 20, 50, 100])
@@ -210,15 +210,67 @@ def correspondence(res):
                 gx.announce_tree(out)
                 der_terms.append(f"({gx.term()}, {coq_string('<start>')}, {export.export_tree(out)})")
                 der_info.append({"kind": "replace-result", "spec": spec, "tree": export.tree_py(out)})
+    # replace_multiple with two simultaneous replacements (what constraint-driven repair does), often nested
+    multi_terms, multi_info = [], []
+    rng2 = random.Random(res.seed * 37 + 11)
+    pool_specs = list(MULTI_SPECS)
+    _multi_cache = {}
+    from fandango import Fandango as _F
+    while len(multi_terms) < (80 if res.tier == "quick" else 1500):
+        spec = rng2.choice(pool_specs)
+        if spec not in _multi_cache:
+            _multi_cache[spec] = _F(spec)
+        fan = _multi_cache[spec]
+        g = fan.grammar
+        gx = export.GrammarExport(g)
+        random.seed(rng2.randrange(1 << 30))
+        try:
+            ts = [g.fuzz("<start>", max_nodes=rng2.choice([10, 30])) for _ in range(3)]
+        except RecursionError:
+            res.bump("multi_fuzz_recursion_limit")
+            continue
+        if any(tree_size(t) > 200 for t in ts):
+            continue
+        a = ts[0]
+        nodes_a = [a] + list(a.descendants())
+        n1 = rng2.choice(nodes_a)
+        inner = [x for x in n1.descendants()] or nodes_a
+        n2 = rng2.choice(inner) if rng2.random() < 0.7 else rng2.choice(nodes_a)
+        if n1 is n2:
+            continue
+        donors = [x for t in ts[1:] for x in [t] + list(t.descendants())]
+        def donor(n):
+            same = [x for x in donors if x.symbol == n.symbol]
+            return rng2.choice(same) if same and rng2.random() < 0.85 else rng2.choice(donors)
+        v1, v2 = donor(n1), donor(n2)
+        try:
+            out = a.replace_multiple(g, [(n1, v1), (n2, v2)])
+        except Exception as e:
+            res.bump("replace_multiple_raised_" + type(e).__name__)
+            continue
+        p1, p2 = path_of(a, n1), path_of(a, n2)
+        fuel = min(tree_depth(a) + tree_depth(v1) + tree_depth(v2) + 4, 4000)
+        reps = coq_list([f"({coq_list([coq_nat(x) for x in p])}, {export.export_tree(v)})" for p, v in ((p1, v1), (p2, v2))])
+        multi_terms.append(f"({export.export_tree(a)}, {reps}, {coq_nat(fuel)}, {export.export_tree(out)})")
+        multi_info.append({"spec": spec, "tree": export.tree_py(a), "replacements": [(p1, export.tree_py(v1)), (p2, export.tree_py(v2))],
+                           "impl": export.tree_py(out)})
+        res.count(("replace_multiple", export.tree_py(a), tuple(p1), tuple(p2)), nontrivial=True)
+        res.bump("replace_multiple_nested" if p2[:len(p1)] == p1 else "replace_multiple_disjoint")
+        gx.announce_tree(out)
+        der_terms.append(f"({gx.term()}, {coq_string('<start>')}, {export.export_tree(out)})")
+        der_info.append({"kind": "replace_multiple-result", "spec": spec, "tree": export.tree_py(a),
+                         "replacements": [(p1, export.tree_py(v1)), (p2, export.tree_py(v2))], "result": export.tree_py(out)})
     if fuzz_info:
         res.sample({"fuzz_case": fuzz_info[0]})
     if repl_info:
         res.sample({"replace_case": repl_info[0]})
     ok = common.run_case_files("C01", "fuzz", HEADER, fuzz_terms, "c01_fuzz_ok", chunk=120)
     okr = common.run_case_files("C01", "repl", HEADER, repl_terms, "c01_replace_ok", chunk=150)
+    okm = common.run_case_files("C01", "multi", HEADER, multi_terms, "c01_replace_multi_ok", chunk=100)
     bad = [i for i, v in enumerate(ok) if v is not True]
     badr = [i for i, v in enumerate(okr) if v is not True]
-    res.coverage["traces_validated_against_impl"] = (len(ok) - len(bad)) + (len(okr) - len(badr))
+    badm = [i for i, v in enumerate(okm) if v is not True]
+    res.coverage["traces_validated_against_impl"] = (len(ok) - len(bad)) + (len(okr) - len(badr)) + (len(okm) - len(badm))
     res.coverage["rule"] = ("random specs (2-6 nonterminals, all body kinds, str/bytes/bit/regex terminals, recursion); real Grammar.fuzz under a "
                             "decision recorder vs fuzz_start on the exported grammar and tape (identical tree required); real "
                             "DerivationTree.replace vs replace1; every tree the evolutionary search evaluates or emits judged by derives_b. "
@@ -230,11 +282,13 @@ def correspondence(res):
         judge(res, [(fuzz_terms[i], fuzz_info[i]) for i in bad[:40]], from_fuzz=True)
     if badr and not first_broken:
         first_broken = Broken(f"correspondence replace: model and DerivationTree.replace differ on {len(badr)}/{len(okr)} cases", repr(repl_info[badr[0]]))
+    if badm and not first_broken:
+        first_broken = Broken(f"correspondence replace_multiple: model and implementation differ on {len(badm)}/{len(okm)} cases", repr(multi_info[badm[0]]))
     # property judged on implementation outputs
     okd = common.run_case_files("C01", "der", HEADER, der_terms, "c01_derives_ok", chunk=150)
     for i, v in enumerate(okd):
         if v is not True:
-            res.violation("tree returned by DerivationTree.replace is not a derivation of the grammar", der_info[i])
+            res.violation("tree returned by DerivationTree.replace / replace_multiple is not a derivation of the grammar", der_info[i])
             break
     end_to_end(res, n_e2e)
     if first_broken:
@@ -300,6 +354,44 @@ def path_of(root, node):
     return p
 
 
+MULTI_SPECS = [
+    """<start> ::= <pair> <pair>?
+<pair> ::= <a> <b> | <b> <c> | "(" <pair> ")"
+<a> ::= "x" | "z"
+<b> ::= "y" | "z" | <a> <a>
+<c> ::= "w" | <b>
+""",
+    """<start> ::= <item>+ <tail>
+<item> ::= "a" | "b" | "[" <item>* "]"
+<tail> ::= "t" | "u" | <item>
+""",
+]
+
+E2E_FIXED = [
+    """<start> ::= <pair>
+<pair> ::= <a> <b> | <b> <c>
+<a> ::= "x" | "z"
+<b> ::= "y" | "z"
+<c> ::= "w"
+where str(<pair>) == "zw"
+where str(<a>) == "z"
+""",
+    """<start> ::= <len> <item>{int(<len>)} <tail>
+<len> ::= "1" | "2" | "3" | "4"
+<item> ::= "a" | "b"
+<tail> ::= "t" | "u"
+where str(<tail>) == "u"
+""",
+    """<start> ::= <len> <item>{int(<len>)} <tail> <tail>
+<len> ::= "1" | "2" | "3"
+<item> ::= "a" | "b" | <d>
+<d> ::= "0" | "1"
+<tail> ::= "t" | "u" | "v"
+where str(<tail>) == "v"
+where str(<d>) == "1"
+""",
+]
+
 CONSTRAINTS = [
     "where len(str(<start>)) >= {k}",
     "where len(str(<start>)) <= {k2}",
@@ -329,7 +421,8 @@ def end_to_end(res, n):
     Evaluator.evaluate_individual = wrapped
     try:
         for i in range(n):
-            spec = gen_grammar.gen_spec(rng, kinds=("str", "regex"), depth=rng.randint(2, 3))
+            fixed = E2E_FIXED[i % len(E2E_FIXED)] if i % 3 == 0 else None
+            spec = fixed or gen_grammar.gen_spec(rng, kinds=("str", "regex"), depth=rng.randint(2, 3))
             cons = rng.sample(CONSTRAINTS, rng.randint(1, 2))
             if rng.random() < 0.5:
                 spec = spec.replace("<start> ::= ", "<start> ::= <c> <x>{int(<c>)} | ", 1) + "<c> ::= '1' | '2' | '3'\n<x> ::= 'x' | 'a'\n"
@@ -337,6 +430,8 @@ def end_to_end(res, n):
             if "<n1>" not in spec:
                 ctext = ctext.replace("<n1>", "<start>")
             full = spec + ctext + "\n"
+            if fixed:
+                full = fixed
             try:
                 fan = Fandango(full)
                 gx = export.GrammarExport(fan.grammar)
@@ -345,10 +440,14 @@ def end_to_end(res, n):
                 continue
             del seen[:]
             random.seed(rng.randrange(1 << 30))
+            kw = dict(desired_solutions=rng.choice([3, 8]), max_generations=rng.choice([5, 12]),
+                      population_size=rng.choice([8, 20]), max_nodes=rng.choice([30, 100]))
             try:
-                sols = fan.fuzz(desired_solutions=rng.choice([3, 8]), max_generations=rng.choice([5, 12]),
-                                population_size=rng.choice([8, 20]), max_nodes=rng.choice([30, 100]))
-            except Exception as e:
+                sols = common.guarded(lambda: fan.fuzz(**kw), 15)
+            except common.ImplTimeout:
+                res.bump("e2e_gave_up_after_15s")      # termination is C06's subject; never a verdict here
+                sols = []
+            except (Exception, MemoryError) as e:
                 res.bump("e2e_raised_" + type(e).__name__)
                 sols = []
             pool = {}
